@@ -100,4 +100,117 @@ theorem isNormalArb_iff {arbs : List Arb} {k : Nat} :
   · rintro ⟨a, ha, h1, h2⟩
     exact ⟨a, ha, by simp [h1, h2]⟩
 
+/-! ### dispatcher vote collection -/
+
+theorem dispFinal_inv (arbs : List Arb) (P : Nat × Bool → Prop) :
+    ∀ (vs : List Vote) (acc : List (Nat × Bool)),
+      acc.Nodup → (∀ k ∈ acc, P k) →
+      (∀ v ∈ vs, v.sigOk = true → isNormalArb arbs v.signer = true → v.accept = true → P (v.signer, v.hashOk)) →
+      (dispFinal arbs acc vs).Nodup ∧ ∀ k ∈ dispFinal arbs acc vs, P k
+  | [], acc, hn, hp, _ => ⟨hn, hp⟩
+  | v :: vs, acc, hn, hp, hv => by
+    simp only [dispFinal]
+    apply dispFinal_inv arbs P vs
+    · unfold dispStep
+      split
+      · rename_i hc
+        simp only [Bool.and_eq_true, Bool.not_eq_true'] at hc
+        apply List.nodup_cons.2
+        refine ⟨?_, hn⟩
+        intro hmem
+        have := hc.2
+        simp [hmem] at this
+      · exact hn
+    · unfold dispStep
+      split
+      · rename_i hc
+        simp only [Bool.and_eq_true, Bool.not_eq_true'] at hc
+        intro k hk
+        rcases List.mem_cons.1 hk with rfl | hk'
+        · exact hv v (List.mem_cons_self ..) hc.1.1.1 hc.1.1.2 hc.1.2
+        · exact hp k hk'
+      · exact hp
+    · intro v' hv'
+      exact hv v' (List.mem_cons_of_mem _ hv')
+
+theorem nodup_map_fst : ∀ (l : List (Nat × Bool)), l.Nodup → (∀ k ∈ l, k.2 = true) →
+    (l.map (·.1)).Nodup
+  | [], _, _ => by simp
+  | k :: l, hn, h => by
+    obtain ⟨hk, hl⟩ := List.nodup_cons.1 hn
+    simp only [List.map_cons]
+    apply List.nodup_cons.2
+    refine ⟨?_, nodup_map_fst l hl (fun x hx => h x (List.mem_cons_of_mem _ hx))⟩
+    intro hm
+    obtain ⟨k', hk', he⟩ := List.mem_map.1 hm
+    have h1 := h k (List.mem_cons_self ..)
+    have h2 := h k' (List.mem_cons_of_mem _ hk')
+    have : k' = k := by cases k; cases k'; simp_all
+    exact hk (this ▸ hk')
+
+/-! ### pool + chain invariant -/
+
+/-- what is maintained for one block: the pool holds only a sane confirmation that was really
+    supplied (`Q`), and the block is connected only if some supplied confirmation is acceptable. -/
+def PCInv (arbs : List Arb) (Q : Conf → Prop) (st : PCState) : Prop :=
+  (∀ j c, st.cached = some (j, c) → sanity c = none ∧ Q c) ∧
+  (st.connected = true → ∃ c, Q c ∧ accepted arbs c = true)
+
+theorem tryConnect_inv {arbs : List Arb} {Q : Conf → Prop} {st : PCState}
+    (h : PCInv arbs Q st) : PCInv arbs Q (tryConnect arbs st) := by
+  unfold tryConnect
+  split
+  · cases hc : st.cached with
+    | none => simpa [hc] using h
+    | some jc =>
+      obtain ⟨j, c⟩ := jc
+      simp only []
+      split
+      · rename_i hctx
+        obtain ⟨hs, hq⟩ := h.1 j c hc
+        refine ⟨?_, fun _ => ⟨c, hq, by simp [accepted, hs, hctx]⟩⟩
+        intro j' c' h'
+        simp only [Option.some.injEq, Prod.mk.injEq] at h'
+        obtain ⟨rfl, rfl⟩ := h'
+        exact h.1 _ _ hc
+      · exact h
+  · exact h
+
+theorem appendConf_inv {arbs : List Arb} {Q : Conf → Prop} {st : PCState} (i : Nat) {c : Conf}
+    (h : PCInv arbs Q st) (hq : Q c) : PCInv arbs Q (appendConf arbs st i c) := by
+  unfold appendConf
+  split
+  · rename_i hs
+    apply tryConnect_inv
+    refine ⟨?_, h.2⟩
+    intro j c' h'
+    simp only [Option.some.injEq, Prod.mk.injEq] at h'
+    obtain ⟨_, rfl⟩ := h'
+    exact ⟨hs, hq⟩
+  · exact h
+
+theorem chainStep_inv {arbs : List Arb} {Q : Conf → Prop} {st : PCState} (i : Nat) {x : CStep}
+    (h : PCInv arbs Q st) (hq : ∀ c, x.conf? = some c → Q c) :
+    PCInv arbs Q (chainStep true arbs st i x) := by
+  cases x with
+  | blk =>
+    simp only [chainStep, if_true]
+    split
+    · exact h
+    · exact tryConnect_inv ⟨h.1, h.2⟩
+  | blkConf c =>
+    simp only [chainStep, if_true]
+    exact appendConf_inv i ⟨h.1, h.2⟩ (hq c rfl)
+  | conf c =>
+    simp only [chainStep, if_true]
+    exact appendConf_inv i h (hq c rfl)
+
+theorem chainFinal_inv {arbs : List Arb} {Q : Conf → Prop} :
+    ∀ (xs : List CStep) (st : PCState) (i : Nat), PCInv arbs Q st →
+      (∀ x ∈ xs, ∀ c, x.conf? = some c → Q c) → PCInv arbs Q (chainFinal true arbs st i xs)
+  | [], _, _, h, _ => h
+  | x :: xs, _, i, h, hq =>
+    chainFinal_inv xs _ (i + 1) (chainStep_inv i h (hq x (List.mem_cons_self ..)))
+      (fun y hy => hq y (List.mem_cons_of_mem _ hy))
+
 end ElaVerif.Confirm
